@@ -107,6 +107,29 @@ fn check_header(c: i32, rep: &mut Report) {
         };
         rep.violation("header-error", &format!("header:{}", c), J::obj(vec![("code", J::Int(c as i64)), ("got", J::s(what))]));
     }
+    // the same header through sources that hand out 1, 2 or 3 bytes per read call (a pipe, a
+    // small BufReader): for the codes near the table, those whose low bytes alone spell a valid
+    // code, and a thin slice of all the others
+    let low_valid = valid(c & 0xff) || valid(c & 0xffff) || valid(c & 0xff_ffff);
+    if near_table(c) || (low_valid && ((c as u32) >> 8) % 251 <= 2) || (c as u32) % 65536 == 257 {
+        for k in 1..=3usize {
+            let mut src = crate::iomon::Src::chunked(h.to_vec(), crate::iomon::Chunking::Fixed(k));
+            let got = Header::read_from(&mut src);
+            rep.count("headers_read_through_a_short_reading_source", 1);
+            let ok = match (&got, valid(c)) {
+                (Ok(hdr), true) => hdr.shape_type as i32 == c,
+                (Err(Error::InvalidShapeType(x)), false) => *x == c,
+                _ => false,
+            };
+            if !ok {
+                let what = match &got {
+                    Ok(h) => format!("Ok(type={})", h.shape_type),
+                    Err(e) => crate::shapes::err_class(e),
+                };
+                rep.violation("header-error/short-reads", &format!("header:{}:chunk{}", c, k), J::obj(vec![("code", J::Int(c as i64)), ("bytes_per_read", J::UInt(k as u64)), ("got", J::s(what))]));
+            }
+        }
+    }
 }
 
 /// One-record file whose record content starts with type code `c`.
@@ -236,6 +259,10 @@ fn check_record_layout(c: i32, body: usize, rep: &mut Report) {
         };
         let mut rd = ShapeReader::new(Cursor::new(f.clone())).map_err(|e| ("generic", crate::shapes::err_class(&e)))?;
         judge(rd.iter_shapes().next().map(|r| r.map(|_| ()))).map_err(|e| ("generic", e))?;
+        // ... and through a source that hands out 1..3 bytes per read call
+        let k = 1 + (c as u32 % 3) as usize;
+        let mut rd = ShapeReader::new(crate::iomon::Src::chunked(f.clone(), crate::iomon::Chunking::Fixed(k))).map_err(|e| ("generic/short-reads", crate::shapes::err_class(&e)))?;
+        judge(rd.iter_shapes().next().map(|r| r.map(|_| ()))).map_err(|e| ("generic/short-reads", e))?;
         let mut rd = ShapeReader::new(Cursor::new(f.clone())).map_err(|e| ("typed", crate::shapes::err_class(&e)))?;
         let first = for_type!(typed_as, S => rd.iter_shapes_as::<S>().next().map(|r| r.map(|_| ())));
         judge(first).map_err(|e| ("typed", e))?;
